@@ -258,6 +258,12 @@ for op in ("Su", "Sd", "Il", "Dl", "Lf", "Nel", "Ri"):
             scroll(op, 3, 3, row, top, bottom, {"C06": T, "C15": T, "C02": T, "C14": T, "C05": T if op in ("Lf", "Nel", "Ri") else None} if False else
                    {k: v for k, v in {"C06": T, "C15": T, "C02": T, "C14": T, "C05": (T if op in ("Lf", "Nel", "Ri") else None)}.items() if v})
 for op in ("Su", "Il", "Dl", "Lf"):
+    if op in ("Su", "Dl"):
+        # whole-view upward scrolls: the count is a constant of the instance (see the 3x3 set)
+        for nf in (0, 1, 2, 65535):
+            scroll(op, 1, 1, 0, 0, 0, {"C06": T, "C01": Q if (op, nf) == ("Su", 65535) else T}, sb=0, nfix=nf)
+            scroll(op, 2, 2, 0, 0, 1, {"C06": T, "C01": T, "C14": T}, sb=2, limit="None", alt=0, suffix="_sb2", nfix=nf)
+        continue
     scroll(op, 1, 1, 0, 0, 0, {"C06": T, "C01": Q if op in ("Il", "Lf") else T}, sb=0)
     scroll(op, 2, 2, 0, 0, 1, {"C06": T, "C01": T}, sb=2, limit="None", alt=0, suffix="_sb2")
 
